@@ -14,7 +14,10 @@ RULE = ("reference tree on 4..12 taxa (rooted or not, binary or multifurcating, 
         "support.NewSupporter() per call; chain cases run two computations in a row (fbp>fbp, tbe>fbp, fbp>tbe, tbe>tbe; "
         "accepted or rejected collections in either position) with ONE shared Supporter value and judge each call on its own "
         "collection; Supporter.Progress() is compared with the number of trees read; every call gets a thread count in "
-        "{1, 2, 4, 16}; 'many' cases: 2000..10000 bootstrap trees given as 2..5 small distinct trees with multiplicities "
+        "{1, 2, 4, 16} and an id policy for the feeder (Trees.Id consecutive as ReadMultiTrees on one file, all zero as a "
+        "channel built without setting Id, restarting every k trees as concatenated files, random with duplicates, decreasing): "
+        "the model does not look at the ids, and by the theorems on the order of the bootstrap trees (fbp/tbe_bootstrap_order) "
+        "the supports depend on the multiset of trees only, so they are independent of the ids; 'many' cases: 2000..10000 bootstrap trees given as 2..5 small distinct trees with multiplicities "
         "((repeat k T), judged through the proved closed form of the model on the expanded list) on 2..16 threads; 'family' cases: support.MinTransferDist called "
         "directly (absent = false and true) on the eleven reference branches outside H of the pair (((a,b),(c,d)),(e,f),H) / "
         "((H,(c,e)),(a,f),(b,d)) with H a common clade on m = 65537..70000 taxa (also small m); the judge does not rebuild trees "
@@ -191,6 +194,18 @@ def gen(rng, tier):
     def cpus_pick():
         return rng.choice([1, 1, 1, 2, 4, 16])
 
+    def ids_pick():
+        """how the feeder numbers the trees (Trees.Id): the supports must not depend on it"""
+        r = rng.random()
+        if r < 0.4: return Sym("seq")
+        if r < 0.6: return Sym("zero")
+        if r < 0.8: return [Sym("restart"), rng.choice([1, 2, 3, 5])]
+        if r < 0.9: return [Sym("rand"), rng.randrange(1, 1000)]
+        return Sym("dec")
+
+    def ids_name(v):
+        return v.s if isinstance(v, Sym) else v[0].s
+
     def bsx(b):
         """a bootstrap tree, or (k, tree) for k consecutive copies"""
         return [Sym("repeat"), b[0], T(b[1])] if isinstance(b, tuple) else T(b)
@@ -201,8 +216,9 @@ def gen(rng, tier):
     def emit(ref, boots, kind, reject=False, mode="nil", cpus=None):
         """FBP and TBE on one collection; mode nil: Supporter = nil, fresh: a new Supporter per call"""
         cpus = cpus or cpus_pick()
-        out.append({"sx": sx({"mode": Sym(mode), "cpus": cpus, "ref": T(ref), "boots": [bsx(b) for b in boots]}),
-                    "meta": {"kind": kind, "mode": mode, "cpus": cpus, "ntips": len(leaves(ref)), "nboot": nb(boots),
+        ids = ids_pick()
+        out.append({"sx": sx({"mode": Sym(mode), "cpus": cpus, "ids": ids, "ref": T(ref), "boots": [bsx(b) for b in boots]}),
+                    "meta": {"kind": kind, "mode": mode, "cpus": cpus, "ids": ids_name(ids), "ntips": len(leaves(ref)), "nboot": nb(boots),
                              "ref_rooted": len(ref["slots"]) == 2, "ref_root_tip": root_tip(ref),
                              "reject": reject}})
         if mode == "nil" and kind != "many":
@@ -212,10 +228,11 @@ def gen(rng, tier):
         """two computations in a row with ONE shared Supporter value"""
         (ref1, boots1, rej1), (ref2, boots2, rej2) = first, second
         cpus = cpus_pick()
-        out.append({"sx": sx({"mode": Sym("chain"), "cpus": cpus, "alg1": Sym(algs[0]), "alg2": Sym(algs[1]),
+        ids = ids_pick()
+        out.append({"sx": sx({"mode": Sym("chain"), "cpus": cpus, "ids": ids, "alg1": Sym(algs[0]), "alg2": Sym(algs[1]),
                               "ref": T(ref1), "boots": [T(b) for b in boots1],
                               "ref2": T(ref2), "boots2": [T(b) for b in boots2]}),
-                    "meta": {"kind": "chain", "mode": "chain:%s>%s" % algs, "cpus": cpus, "ntips": len(leaves(ref2)),
+                    "meta": {"kind": "chain", "mode": "chain:%s>%s" % algs, "cpus": cpus, "ids": ids_name(ids), "ntips": len(leaves(ref2)),
                              "nboot": len(boots2), "ref_rooted": len(ref2["slots"]) == 2,
                              "ref_root_tip": root_tip(ref1) or root_tip(ref2), "reject": rej2,
                              "first_reject": rej1}})
